@@ -2,6 +2,7 @@ package main
 
 import (
 	"bufio"
+	"bytes"
 	"encoding/json"
 	"flag"
 	"fmt"
@@ -9,6 +10,7 @@ import (
 	"runtime"
 	"runtime/debug"
 	"strings"
+	"time"
 
 	pulsarrt "github.com/cosmos/cosmos-proto/runtime"
 	"github.com/cosmos/cosmos-proto/zzverif/proj"
@@ -133,15 +135,64 @@ func replaceUnknowns(m protoreflect.Message, depth int) (n int) {
 // tryUnmarshal decodes b into a fresh pulsar message and its dynamicpb twin.
 // Returned verdicts are violations of totality (panic, unusable accepted message) or, as kind
 // "accept"/"reject"/"state", disagreements with the reference on acceptance.
+// hangLimit bounds one Unmarshal call; a call that does not return is reported (kind "hang")
+// and the process exits, since the stuck goroutine cannot be stopped.
+const hangLimit = 20 * time.Second
+
+var hangExit = func(v parseVerdict) {}
+
+// bounded runs f under recover and a watchdog.
+func bounded(f func()) (pn string, hung bool) {
+	done := make(chan string, 1)
+	go func() { done <- catch(f) }()
+	select {
+	case pn = <-done:
+		return pn, false
+	case <-time.After(hangLimit):
+		return "", true
+	}
+}
+
 func tryUnmarshal(mt protoreflect.MessageType, b []byte, fault string, emit func(parseVerdict)) (accepted bool) {
 	md := mt.Descriptor()
 	name := string(md.FullName())
 	p := newPulsar(mt)
 	var err error
 	in := append([]byte(nil), b...)
-	if pn := catch(func() { err = proto.Unmarshal(in, p) }); pn != "" {
+	pn, hung := bounded(func() { err = proto.Unmarshal(in, p) })
+	if hung {
+		hangExit(parseVerdict{Kind: "hang", Type: name, In: proj.Bytes(b), Note: fmt.Sprintf("hang: proto.Unmarshal did not return within %v", hangLimit), Fault: fault})
+	}
+	if pn != "" {
 		emit(parseVerdict{Kind: "unmarshal", Type: name, In: proj.Bytes(b), Note: "panic: " + pn, Fault: fault})
 		return false
+	}
+	// the same bytes under the other decoding options (DiscardUnknown, Merge onto a decoded
+	// message): totality is required of every way of calling Unmarshal
+	for _, o := range []proto.UnmarshalOptions{{DiscardUnknown: true}, {Merge: true}, {Merge: true, DiscardUnknown: true}} {
+		o := o
+		q := newPulsar(mt)
+		var oerr error
+		pn, hung := bounded(func() {
+			if o.Merge {
+				_ = proto.Unmarshal(in, q) // first decode (result already judged above), then merge the same bytes again
+			}
+			oerr = o.Unmarshal(in, q)
+		})
+		label := fmt.Sprintf("options{DiscardUnknown:%v,Merge:%v}", o.DiscardUnknown, o.Merge)
+		if hung {
+			hangExit(parseVerdict{Kind: "hang", Type: name, In: proj.Bytes(b), Note: "hang: " + label + " did not return", Fault: fault})
+		}
+		if pn != "" {
+			emit(parseVerdict{Kind: "unmarshal", Type: name, In: proj.Bytes(b), Note: "panic: " + label + ": " + pn, Fault: fault})
+			return false
+		}
+		if oerr == nil && err == nil {
+			if note := postOps(q); note != "" {
+				emit(parseVerdict{Kind: "post", Type: name, In: proj.Bytes(b), Note: label + ": " + note, Fault: fault})
+				return true
+			}
+		}
 	}
 	d := dynamicpb.NewMessage(md)
 	var rerr error
@@ -204,6 +255,15 @@ func cmdParseReplay(args []string) {
 	sc := bufio.NewScanner(f)
 	sc.Buffer(make([]byte, 1<<20), 1<<28)
 	var n, wellFormedFirst, unmarshals, accepted, laxAccepts int
+	hangExit = func(v parseVerdict) {
+		emit(v)
+		sb, _ := json.Marshal(map[string]any{"summary": true, "buffers": n, "wellformed_first": wellFormedFirst, "skip_accepts_malformed": laxAccepts,
+			"unmarshals": unmarshals, "accepted": accepted, "aborted_after_hang": true})
+		w.Write(sb)
+		w.WriteByte('\n')
+		w.Flush()
+		os.Exit(0)
+	}
 	for sc.Scan() {
 		line := sc.Text()
 		if !strings.HasPrefix(line, "BUF ") {
@@ -316,9 +376,17 @@ func cmdFaults(args []string) {
 		w.Write(b)
 		w.WriteByte('\n')
 	}
+	var cases, accepted, bombs int
+	hangExit = func(v parseVerdict) {
+		emit(v)
+		sb, _ := json.Marshal(map[string]any{"summary": true, "cases": cases, "accepted": accepted, "bombs": bombs, "aborted_after_hang": true})
+		w.Write(sb)
+		w.WriteByte('\n')
+		w.Flush()
+		os.Exit(0)
+	}
 	g := val.New(*seed)
 	g.Budget = 25
-	var cases, accepted, bombs int
 	for i := 0; i < *n; i++ {
 		b := g.EncodeRandom(md, 0)
 		if i%2 == 1 {
@@ -344,12 +412,81 @@ func cmdFaults(args []string) {
 			}
 		})
 	}
+	// payload-length sweep: every field as a length-delimited record with every payload length
+	// 0..17 of filler bytes (ragged packed runs, partial map entries, partial nested messages),
+	// as the last record of the buffer and followed by another record
+	for i := 0; i < md.Fields().Len(); i++ {
+		fd := md.Fields().Get(i)
+		for n := 0; n <= 17; n++ {
+			for _, fill := range []byte{0x01, 0x0a, 0x80, 0xff} {
+				x := protowire.AppendTag(nil, fd.Number(), protowire.BytesType)
+				x = protowire.AppendBytes(x, bytes.Repeat([]byte{fill}, n))
+				for _, tail := range [][]byte{nil, {0x08, 0x01}} {
+					cases++
+					if tryUnmarshal(mt, append(append([]byte(nil), x...), tail...), "payloadlen", emit) {
+						accepted++
+					}
+				}
+			}
+		}
+	}
+	// negative lengths: a 10-byte length varint denoting -1..-24 (a cursor that moves backwards
+	// re-reads the record's own tag), bare and inside a map entry / nested payload
+	for i := 0; i < md.Fields().Len(); i++ {
+		fd := md.Fields().Get(i)
+		for neg := 1; neg <= 24; neg++ {
+			x := protowire.AppendTag(nil, fd.Number(), protowire.BytesType)
+			x = protowire.AppendVarint(x, uint64(int64(-neg)))
+			inner := append(protowire.AppendTag(nil, 2, protowire.BytesType), protowire.AppendVarint(nil, uint64(int64(-neg)))...)
+			y := protowire.AppendBytes(protowire.AppendTag(nil, fd.Number(), protowire.BytesType), inner)
+			for _, in := range [][]byte{x, append(append([]byte(nil), x...), 1, 2, 3), y} {
+				cases++
+				if tryUnmarshal(mt, in, "neglen", emit) {
+					accepted++
+				}
+			}
+		}
+	}
+	// oneof switches inside one stream: member a then member b of the same oneof, every ordered pair
+	for i := 0; i < md.Oneofs().Len(); i++ {
+		od := md.Oneofs().Get(i)
+		if od.IsSynthetic() {
+			continue
+		}
+		enc := func(fd protoreflect.FieldDescriptor) []byte {
+			d := dynamicpb.NewMessage(md)
+			if fd.Message() != nil {
+				sub := d.NewField(fd)
+				if g.R.Intn(2) == 0 {
+					g.Fill(sub.Message(), g.MaxDepth) // at the depth limit: scalars only
+				}
+				d.Set(fd, sub)
+			} else {
+				d.Set(fd, g.Scalar(fd))
+			}
+			b, _ := proto.Marshal(d)
+			return b
+		}
+		for a := 0; a < od.Fields().Len(); a++ {
+			for b := 0; b < od.Fields().Len(); b++ {
+				in := append(enc(od.Fields().Get(a)), enc(od.Fields().Get(b))...)
+				cases++
+				if tryUnmarshal(mt, in, "oneofswitch", emit) {
+					accepted++
+				}
+			}
+		}
+	}
 	// length bombs: a length-delimited field claiming 2^k bytes with almost nothing behind it
 	for i := 0; i < md.Fields().Len(); i++ {
 		fd := md.Fields().Get(i)
 		var wt protowire.Type = protowire.BytesType
+		stop := map[int]bool{} // once a variant allocates out of proportion, do not escalate it further
 		for k := uint(7); k < 64; k += 3 {
 			for _, variant := range []int{0, 1} {
+				if stop[variant] {
+					continue
+				}
 				var x []byte
 				x = protowire.AppendTag(x, fd.Number(), wt)
 				x = protowire.AppendVarint(x, uint64(1)<<k)
@@ -369,6 +506,7 @@ func cmdFaults(args []string) {
 				runtime.ReadMemStats(&ms1)
 				if delta := ms1.TotalAlloc - ms0.TotalAlloc; delta > 1<<20 {
 					emit(parseVerdict{Kind: "alloc", Type: *typ, In: proj.Bytes(x), Note: fmt.Sprintf("allocated %d bytes for a %d byte input", delta, len(x)), Fault: "lengthbomb"})
+					stop[variant] = true
 				}
 			}
 		}
